@@ -36,12 +36,12 @@ type VSimCommitBlock struct {
 }
 
 const (
-	VGProceed = iota
-	VGError         // answer Code (for every partition of a commit / offset fetch) without effect
-	VGDropBefore    // close the connection, no effect
-	VGDropAfter     // apply, then close the connection without answering
-	VGOmitBlocks    // commit / offset-fetch: no effect and leave the blocks out of the answer
-	VGPartErrors    // commit: PartCodes applies per "topic/partition" (others accepted)
+	VGProceed         = iota
+	VGError           // answer Code (for every partition of a commit / offset fetch) without effect
+	VGDropBefore      // close the connection, no effect
+	VGDropAfter       // apply, then close the connection without answering
+	VGOmitBlocks      // commit / offset-fetch: no effect and leave the blocks out of the answer
+	VGPartErrors      // commit: PartCodes applies per "topic/partition" (others accepted)
 	VGMoveCoordinator // move the group to broker MoveTo first; this request is then answered NOT_COORDINATOR
 )
 
@@ -55,28 +55,28 @@ type VSimGroupAction struct {
 
 // VSimGroupEvent is one coordinator request with the answer it got.
 type VSimGroupEvent struct {
-	ClientID   string
-	Seq        int64
-	Kind       string
-	N          int
-	Broker     int32
-	Conn       int64
-	Group      string
-	Member     string // as sent
-	Generation int32  // as sent
-	Code       int16  // answered (top level, or first non-zero partition code)
-	Action     int
+	ClientID         string
+	Seq              int64
+	Kind             string
+	N                int
+	Broker           int32
+	Conn             int64
+	Group            string
+	Member           string // as sent
+	Generation       int32  // as sent
+	Code             int16  // answered (top level, or first non-zero partition code)
+	Action           int
 	IssuedMember     string // join: member id answered
 	IssuedGeneration int32  // join: generation answered
-	Leader     string
-	Members    []string // join answer to the leader: member ids
-	State      string   // group state after handling
-	Blocks     []VSimCommitBlock
-	PartCodes  map[string]int16
-	Applied    bool // commit: stored
-	Assignment []byte // sync: assignment answered
-	Subscription []string // join: topics in the member metadata
-	Stored     map[string]VSimCommitBlock // offset-fetch: what was answered per topic/partition
+	Leader           string
+	Members          []string // join answer to the leader: member ids
+	State            string   // group state after handling
+	Blocks           []VSimCommitBlock
+	PartCodes        map[string]int16
+	Applied          bool                       // commit: stored
+	Assignment       []byte                     // sync: assignment answered
+	Subscription     []string                   // join: topics in the member metadata
+	Stored           map[string]VSimCommitBlock // offset-fetch: what was answered per topic/partition
 }
 
 type vsMember struct {
@@ -95,19 +95,19 @@ type vsOffset struct {
 }
 
 type vsGroup struct {
-	name        string
-	coordinator int32
-	state       string
-	generation  int32
-	members     map[string]*vsMember
-	leader      string
-	protocol    string
-	nextMember  int
-	offsets     map[string]*vsOffset // "topic/partition"
-	assignments map[string][]byte
-	counts      map[string]int
+	name           string
+	coordinator    int32
+	state          string
+	generation     int32
+	members        map[string]*vsMember
+	leader         string
+	protocol       string
+	nextMember     int
+	offsets        map[string]*vsOffset // "topic/partition"
+	assignments    map[string][]byte
+	counts         map[string]int
 	rebalanceTimer *time.Timer
-	cond        *sync.Cond
+	cond           *sync.Cond
 }
 
 func (s *VSim) groupLocked(name string) *vsGroup {
